@@ -138,6 +138,16 @@ def workload(tier, seed, scale=1.0):
         for op in ('div', 'rem'):
             cmds.append(cmd_bb('C03', op, a, 0, 'U', cell=('bb', op, 'U', 'zero_divisor', n)))
             cmds.append(cmd_bb('C03', op, -a, 0, 'I', cell=('bb', op, 'I', 'zero_divisor', n)))
+    # primitive-boundary operands: a quotient / dividend that overflows a native fast path (iN::MIN / -1, uN::MAX / 1, ...)
+    for nb in (8, 16, 32, 64, 128):
+        lo, hi, um = -(1 << (nb - 1)), (1 << (nb - 1)) - 1, (1 << nb) - 1
+        for a in (lo, lo + 1, lo - 1, hi, hi + 1, um, um + 1, -um, -um - 1):
+            for b in (-1, 1, 2, -2, lo, hi, um, -um, lo + 1, hi + 1):
+                cmds.append(cmd_divall('C03', a, b, 'I', cell=('prim-boundary', nb, (a > 0) - (a < 0), (b > 0) - (b < 0), abs(b) == 1)))
+                for op in ('div', 'rem'):
+                    cmds.append(cmd_bb('C03', op, a, b, 'I', cell=('bb-prim-boundary', op, nb, a == lo, b == -1)))
+                if a >= 0 and b > 0:
+                    cmds.append(cmd_divall('C03', a, b, 'U', cell=('prim-boundary', nb, 'U', abs(b) == 1)))
     # operator forms on a cross-section (val/ref/assign) - also feeds C10
     sample = [c for c in cmds if c.line.startswith('divall')]
     step = max(1, len(sample) // (400 if quick else 3000))
